@@ -48,11 +48,20 @@ Qed.
 Lemma bt_ok_sorted {A} (ok : A -> bool) l : bt_ok ok l = true -> bt_sorted l = true.
 Proof. unfold bt_ok. rewrite !andb_true_iff. tauto. Qed.
 
-Ltac wf_leaf :=
-  cbn [fst snd];
-  once (first [ reflexivity | assumption
-        | apply wf_vstr; assumption | apply wf_vuuid; assumption | apply wf_vu32; assumption
-        | (cbn [wf]; first [apply wf_vstr | apply wf_vuuid]; assumption) ]).
+Lemma wf_vsome v : wf true v = true -> wf true (VSome v) = true.
+Proof. exact (fun H => H). Qed.
+
+(* syntax-directed, so that the kernel re-checks no conversion across constructors *)
+Ltac wf_val :=
+  lazymatch goal with
+  | |- wf true (VSome _) = true => apply wf_vsome; wf_val
+  | |- wf true (VString _) = true => apply wf_vstr; assumption
+  | |- wf true (vuuid _) = true => apply wf_vuuid; assumption
+  | |- wf true (vu32 _) = true => apply wf_vu32; assumption
+  | |- wf true (VBool _) = true => reflexivity
+  | |- wf true VNone = true => reflexivity
+  end.
+Ltac wf_leaf := cbn [fst snd]; lazymatch goal with |- (_ <=? _) = true => reflexivity | _ => wf_val end.
 Ltac wf_forall leaf :=
   lazymatch goal with
   | |- Forall _ [] => apply Forall_nil
@@ -80,29 +89,40 @@ Proof. intros H. destruct m, e as [id name [d|] [t|]]; split_ok H; unfold event_
 Lemma fallback_value_wf m k f : fb_ok f = true -> wf true (fallback_value m k f) = true.
 Proof. intros H. destruct m, k, f as [name [d|]]; unfold fb_ok, doc_ok in H; cbn [fb_name fb_doc] in H; apply andb_prop in H as [Hn Hd]; unfold fallback_value; cbn [fb_name fb_doc docf optf option_map app sel fb_name_id fb_doc_id]; wf_fields. Qed.
 
-Ltac wf_leaf2 :=
-  cbn [fst snd];
-  once (first [ reflexivity | assumption
-        | apply wf_vstr; assumption | apply wf_vuuid; assumption | apply wf_vu32; assumption
-        | (cbn [wf]; first [apply wf_vstr | apply wf_vuuid]; assumption)
-        | (cbn [wf]; apply fallback_value_wf; assumption)
-        | (eapply wf_vmap32; [eassumption|]; intros x; first [apply field_value_wf | apply variant_value_wf
-                                                          | apply func_value_wf | apply event_value_wf]) ]).
+Ltac wf_val2 :=
+  lazymatch goal with
+  | |- wf true (VSome _) = true => apply wf_vsome; wf_val2
+  | |- wf true (VString _) = true => apply wf_vstr; assumption
+  | |- wf true (vuuid _) = true => apply wf_vuuid; assumption
+  | |- wf true (vu32 _) = true => apply wf_vu32; assumption
+  | |- wf true (VBool _) = true => reflexivity
+  | |- wf true (fallback_value _ _ _) = true => apply fallback_value_wf; assumption
+  | |- wf true (vmap32 (field_value _) _) = true => apply (wf_vmap32 _ field_ok); [assumption|intros x; apply field_value_wf]
+  | |- wf true (vmap32 (variant_value _) _) = true => apply (wf_vmap32 _ variant_ok); [assumption|intros x; apply variant_value_wf]
+  | |- wf true (vmap32 (func_value _) _) = true => apply (wf_vmap32 _ func_ok); [assumption|intros x; apply func_value_wf]
+  | |- wf true (vmap32 (event_value _) _) = true => apply (wf_vmap32 _ event_ok); [assumption|intros x; apply event_value_wf]
+  end.
+Ltac wf_leaf2 := cbn [fst snd]; lazymatch goal with |- (_ <=? _) = true => reflexivity | _ => wf_val2 end.
 Ltac wf_fields2 := apply wf_struct; [reflexivity|reflexivity|wf_forall wf_leaf2].
+
+Lemma wf_venum id x : (id <=? u32_max) = true -> wf true x = true -> wf true (VEnum id x) = true.
+Proof. intros H1 H2. cbn [wf]. rewrite H1, H2. reflexivity. Qed.
 
 Lemma builtin_value_wf m b : builtin_ok b = true -> wf true (builtin_value m b) = true.
 Proof.
   intros H. destruct b as [p|w t|k v|a e|t n]; cbn [builtin_ok] in H;
     [| |apply andb_prop in H as [H H']|apply andb_prop in H as [H H']|apply andb_prop in H as [H H']];
-    unfold builtin_value; cbn [wf].
+    unfold builtin_value; apply wf_venum.
   - destruct m, p; reflexivity.
-  - assert ((wrap_id m w <=? u32_max) = true) as -> by (destruct m, w; reflexivity). apply wf_vuuid, H.
-  - assert ((sel m Ir_BuiltInTypeVariant_Map Rs_BuiltInTypeVariant_Map <=? u32_max) = true) as -> by (destruct m; reflexivity).
-    destruct m; cbn [sel andb]; wf_fields.
-  - assert ((sel m Ir_BuiltInTypeVariant_Result Rs_BuiltInTypeVariant_Result <=? u32_max) = true) as -> by (destruct m; reflexivity).
-    destruct m; cbn [sel andb]; wf_fields.
-  - assert ((sel m Ir_BuiltInTypeVariant_Array Rs_BuiltInTypeVariant_Array <=? u32_max) = true) as -> by (destruct m; reflexivity).
-    destruct m; cbn [sel andb]; wf_fields.
+  - reflexivity.
+  - destruct m, w; reflexivity.
+  - apply wf_vuuid, H.
+  - destruct m; reflexivity.
+  - destruct m; cbn [sel]; wf_fields.
+  - destruct m; reflexivity.
+  - destruct m; cbn [sel]; wf_fields.
+  - destruct m; reflexivity.
+  - destruct m; cbn [sel]; wf_fields.
 Qed.
 
 Lemma struct_value_wf m s :
@@ -150,21 +170,92 @@ Qed.
 
 Theorem layout_value_wf m l : layout_ok l = true -> wf true (layout_value m l) = true.
 Proof.
-  intros H. destruct l as [b|s|e|s|n]; cbn [layout_ok] in H; unfold layout_value; cbn [wf].
-  - assert ((sel m Ir_LayoutVariant_BuiltIn Rs_LayoutVariant_BuiltIn <=? u32_max) = true) as -> by (destruct m; reflexivity).
-    apply builtin_value_wf, H.
-  - assert ((sel m Ir_LayoutVariant_Struct Rs_LayoutVariant_Struct <=? u32_max) = true) as -> by (destruct m; reflexivity).
-    apply struct_value_wf, H.
-  - assert ((sel m Ir_LayoutVariant_Enum Rs_LayoutVariant_Enum <=? u32_max) = true) as -> by (destruct m; reflexivity).
-    apply enum_value_wf, H.
-  - assert ((sel m Ir_LayoutVariant_Service Rs_LayoutVariant_Service <=? u32_max) = true) as -> by (destruct m; reflexivity).
-    apply service_value_wf, H.
-  - assert ((sel m Ir_LayoutVariant_Newtype Rs_LayoutVariant_Newtype <=? u32_max) = true) as -> by (destruct m; reflexivity).
-    apply newtype_value_wf, H.
+  intros H. destruct l as [b|s|e|s|n]; cbn [layout_ok] in H; unfold layout_value; apply wf_venum;
+    try (destruct m; reflexivity).
+  - apply builtin_value_wf, H.
+  - apply struct_value_wf, H.
+  - apply enum_value_wf, H.
+  - apply service_value_wf, H.
+  - apply newtype_value_wf, H.
 Qed.
 
 Lemma layout_ok_sorted l : layout_ok l = true -> layout_sorted l = true.
 Proof.
-  destruct l as [b|s|e|s|n]; cbn [layout_ok layout_sorted]; try reflexivity; rewrite !andb_true_iff;
-    intros H; repeat (destruct H as [H ?]); eauto using bt_ok_sorted.
+  destruct l as [b|s|e|s|n]; cbn [layout_ok layout_sorted]; try reflexivity; rewrite !andb_true_iff; intros H.
+  - destruct H as [[_ H] _]. eapply bt_ok_sorted, H.
+  - destruct H as [[_ H] _]. eapply bt_ok_sorted, H.
+  - destruct H as [[[[_ Hf] He] _] _]. split; eapply bt_ok_sorted; eassumption.
 Qed.
+
+(* ================================================================ depth *)
+Lemma vmap32_depth {A} (enc : A -> Value) (l : list (N * A)) k :
+  (forall x, (depth (enc x) <= k)%nat) -> (depth (vmap32 enc l) <= S k)%nat.
+Proof.
+  intros H. unfold vmap32. rewrite depth_map. apply le_n_S.
+  induction l as [|p l IH]; cbn [map maxd fold_right snd]; [lia|]. specialize (H (snd p)). unfold maxd in IH. lia.
+Qed.
+
+Ltac dnorm := rewrite ?depth_struct; cbn [maxd fold_right snd depth vuuid vu32].
+
+Lemma field_depth m f : (depth (field_value m f) <= 3)%nat.
+Proof. destruct m, f as [id name [d|] r t]; unfold field_value; cbn [f_id f_name f_doc f_req f_ty docf optf option_map app sel]; dnorm; lia. Qed.
+Lemma variant_depth m v : (depth (variant_value m v) <= 3)%nat.
+Proof. destruct m, v as [id name [d|] [t|]]; unfold variant_value; cbn [v_id v_name v_doc v_ty docf optf option_map app sel vouuid]; dnorm; lia. Qed.
+Lemma func_depth m f : (depth (func_value m f) <= 3)%nat.
+Proof. destruct m, f as [id name [d|] [a|] [o|] [e|]]; unfold func_value; cbn [fn_id fn_name fn_doc fn_args fn_ok fn_err docf optf option_map app sel vouuid]; dnorm; lia. Qed.
+Lemma event_depth m e : (depth (event_value m e) <= 3)%nat.
+Proof. destruct m, e as [id name [d|] [t|]]; unfold event_value; cbn [ev_id ev_name ev_doc ev_ty docf optf option_map app sel vouuid]; dnorm; lia. Qed.
+Lemma fallback_depth m k f : (depth (fallback_value m k f) <= 3)%nat.
+Proof. destruct m, f as [name [d|]]; unfold fallback_value; cbn [fb_name fb_doc docf optf option_map app sel]; dnorm; lia. Qed.
+Lemma builtin_depth m b : (depth (builtin_value m b) <= 3)%nat.
+Proof. destruct b as [p|w t|k v|a e|t n]; unfold builtin_value; dnorm; lia. Qed.
+
+Lemma struct_depth m s : (depth (struct_value m s) <= 5)%nat.
+Proof.
+  pose proof (vmap32_depth (field_value m) (s_fields s) 3 (field_depth m)).
+  destruct m, s as [schema name [d|] fields [fb|]]; try pose proof (fallback_depth MIr FbStruct fb);
+    try pose proof (fallback_depth MRs FbStruct fb); unfold struct_value in *;
+    cbn [s_schema s_name s_doc s_fields s_fallback docf optf option_map app sel vofb] in *; dnorm; lia.
+Qed.
+Lemma enum_depth m e : (depth (enum_value m e) <= 5)%nat.
+Proof.
+  pose proof (vmap32_depth (variant_value m) (e_variants e) 3 (variant_depth m)).
+  destruct m, e as [schema name [d|] vs [fb|]]; try pose proof (fallback_depth MIr FbEnum fb);
+    try pose proof (fallback_depth MRs FbEnum fb); unfold enum_value in *;
+    cbn [e_schema e_name e_doc e_variants e_fallback docf optf option_map app sel vofb] in *; dnorm; lia.
+Qed.
+Lemma newtype_depth m n : (depth (newtype_value m n) <= 5)%nat.
+Proof. destruct m, n as [schema name [d|] t]; unfold newtype_value; cbn [n_schema n_name n_doc n_target docf optf option_map app sel]; dnorm; lia. Qed.
+Lemma service_depth m s : (depth (service_value m s) <= 5)%nat.
+Proof.
+  pose proof (vmap32_depth (func_value m) (sv_functions s) 3 (func_depth m)).
+  pose proof (vmap32_depth (event_value m) (sv_events s) 3 (event_depth m)).
+  destruct m, s as [schema name [d|] u ver fs es [ffb|] [efb|]];
+    try pose proof (fallback_depth MIr FbFunction ffb); try pose proof (fallback_depth MRs FbFunction ffb);
+    try pose proof (fallback_depth MIr FbEvent efb); try pose proof (fallback_depth MRs FbEvent efb);
+    unfold service_value in *;
+    cbn [sv_schema sv_name sv_doc sv_uuid sv_version sv_functions sv_events sv_ffallback sv_efallback
+         docf optf option_map app sel vofb] in *; dnorm; lia.
+Qed.
+
+Theorem layout_value_depth m l : (depth (layout_value m l) <= 6)%nat.
+Proof.
+  destruct l as [b|s|e|s|n]; unfold layout_value; cbn [depth].
+  - pose proof (builtin_depth m b). lia.
+  - pose proof (struct_depth m s). lia.
+  - pose proof (enum_depth m e). lia.
+  - pose proof (service_depth m s). lia.
+  - pose proof (newtype_depth m n). lia.
+Qed.
+
+(* hence a well-formed layout serializes at every depth the code uses (0 for the IR, 1 inside the
+   Introspection record) *)
+Theorem layout_serializes m l d : layout_ok l = true -> (d <= 26)%nat ->
+  exists bs, ser E2 d (layout_value m l) = Ok bs.
+Proof.
+  intros Hok Hd. apply (ser_total true E2 _ d (layout_value_wf m l Hok)).
+  unfold fits. pose proof (layout_value_depth m l). lia.
+Qed.
+
+Corollary canon_layout_ok l : layout_ok l = true -> exists bs, canon_layout l = Ok bs.
+Proof. intros H. apply (layout_serializes MIr l 0 H). lia. Qed.
